@@ -647,18 +647,24 @@ class Run:
         self.notes = {}        # crash point -> error texts of the probes (diagnostics only, not validated)
 
 
-def run_scenario(env, sid, start, op):
+def run_scenario(env, sid, start, op, crashed=None):
+    """crashed = (first-level Run, k): start from the directory that run's crash point k left behind (the
+    operation below is then the RETRY, and its own prefixes are states after a second crash)"""
     ab, drv, src, work = env["ab"], env["drv"], env["src"], env["work"]
     r = Run(sid, start, op)
     base = os.path.join(work, sid)
     d = os.path.join(base, "d")
     os.makedirs(base)
-    tmpl = os.path.join(env["states"], start)
-    if os.path.isdir(tmpl):
-        shutil.copytree(tmpl, d)
+    if crashed is not None:
+        crashed[0].snaps[crashed[1]].dump(d)
+    else:
+        tmpl = os.path.join(env["states"], start)
+        if os.path.isdir(tmpl):
+            shutil.copytree(tmpl, d)
     fs = FS.load(d)
     fs.root = d
-    r.pre_fs = fs.clone()
+    r.pre_fs = crashed[0].pre_fs if crashed is not None else fs.clone()   # O3 refers to the tags before the FIRST attempt
+    r.second = crashed is not None
     st = os.path.join(base, "strace.txt")
     p = _sh(strace_argv(st) + [drv, "-mode", "op", "-dir", d, "-src", src, "-op", op, "-res", os.path.join(base, "res.json")],
             cwd=base)
@@ -666,6 +672,8 @@ def run_scenario(env, sid, start, op):
         raise vlib.ToolError("driver failed under strace (%s %s): rc=%d %s" % (start, op, p.returncode, p.stderr[-2000:]))
     with open(os.path.join(base, "res.json")) as f:
         r.res = json.load(f)
+    if crashed is not None:
+        r.res["ok"] = 1      # a retry may legitimately report an error (e.g. "not found" after an interrupted delete)
     calls, _ = parse_strace(st)
     r.calls = calls
     rp = Replayer(fs, base)
@@ -778,7 +786,7 @@ def build_trace(env, r, probes, dirs, selected):
         r.notes[k] = {"fresh": pr["fresh"].get("notes", [])[:4], "tl_err": pr["fresh"].get("tl_err", ""),
                       "retry_err": pr.get("retry_err", ""), "after": pr["after"].get("notes", [])[:4]}
     pe = probes["%s#end" % r.sid]
-    end = {"ev": "end", "trace": r.sid, "n": len(r.events), "ok": int(r.res["ok"])}
+    end = {"ev": "end", "trace": r.sid, "n": len(r.events), "ok": int(r.res["ok"]), "second": 1 if r.second else 0}
     fin = FS.load(r.final_dir)
     end.update(facts_of(ab, fin, info))
     end.update(ab.fresh_facts(pe["fresh"], info["subj"]))
@@ -1045,8 +1053,19 @@ def run(ctx):
             raise vlib.ToolError("scenario %s %s does not run on this tree (uninterrupted operation failed: %s)"
                                  % (r.start, r.op, r.res["err"]))
     mode = marker_mode(runs)
+    first_level = list(runs)
+    if thorough and not ctx.replay:
+        # two crashes on the real code: the retry of a seeded sample of crash states runs under strace itself
+        pts = [(r, k) for r in first_level for k in range(1, len(r.events) + 1)]
+        picks = vlib.sample(rng, pts, 80)
+
+        def second(x):
+            i, (r, k) = x
+            return run_scenario(env, "t%03d" % i, "%s~%s@%d" % (r.start, r.op, k), r.op, crashed=(r, k))
+        with concurrent.futures.ThreadPoolExecutor(12) as ex:
+            runs += list(ex.map(second, list(enumerate(picks))))
     # really kill the process at sampled system calls and compare what is left with the replayer's reconstruction
-    kill_ok, kill_inconclusive, kill_points = (0, 0, []) if ctx.replay else kill_confirm(env, runs, rng, 40 if ctx.thorough else 10)
+    kill_ok, kill_inconclusive, kill_points = (0, 0, []) if ctx.replay else kill_confirm(env, first_level, rng, 40 if ctx.thorough else 10)
     import time
     tick = [time.time()]
 
@@ -1077,8 +1096,8 @@ def run(ctx):
             mc.append(ctx.tlc("LayoutFSMC", "C07_mc_t2.cfg" if mode == "rewrite" else "C07_mc_t2_fixed.cfg", timeout=2400,
                               label="as quick, the retry may be killed as well (two crashes)"))
             mc.append(ctx.tlc("LayoutFSMC", "C07_sim_ix.cfg" if mode == "rewrite" else "C07_sim_ix_fixed.cfg", timeout=1200,
-                              simulate="num=%d" % 4000, depth=400, extra=["-seed", str(ctx.seed)],
-                              label="copy of a two-image index, one goroutine per blob: random behaviours (BFS does not finish)"))
+                              workers=8, simulate="num=%d" % 200, depth=400, extra=["-seed", str(ctx.seed)],
+                              label="copy of a two-image index, one goroutine per blob: 1600 random behaviours (BFS does not finish)"))
             if mode == "rewrite":
                 mc.append(ctx.tlc("LayoutFSMC", "C07_mc_fixed.cfg", timeout=900,
                                   label="design of the proposed repair (findings/C07-1.patch): crash anywhere + retry"))
@@ -1170,7 +1189,7 @@ def run(ctx):
             cov.setdefault("model_drift", []).append(name)
 
     # 4. binding of (D): the recorded call sequences are behaviours of LayoutFS
-    dts = [dtrace_of(env["ab"], r) for r in runs]
+    dts = [dtrace_of(env["ab"], r) for r in first_level]
     if not thorough:
         dts = [d for d in dts if not (d["header"]["kind"] in CONCURRENT and d["header"]["o"] == "IX")]
     done, drift = validate_dtraces(ctx, dts, mode, "dtrace")
